@@ -145,6 +145,68 @@ def rule_order(ck, units):
                   ('no accumulation site found' if not sites else 'at %s the product is `%s`: the entry of B is the left factor' % (f.where(bad[0]), show(bad[0]))) if (bad or not sites) else '')
 
 
+def rule_first_flag(ck, units, floor=5):
+    """flagged reductions:  if (F) { F = <off>; ACC = X; } else { ACC = g(ACC, X); }   (F a boolean local, <off> the literal opposite to
+    the one that arms it).  ACC is the reduction of every X met since F was last armed.  The loops that enclose the pattern but none
+    of the places where ACC is consumed are the loops the reduction runs over; F must not be re-armed inside them (the reduction would
+    restart and forget what it has seen)."""
+    ck.rule('flagged-reduction-scope', 'a first-element flag of a min/max reduction is armed outside the loops the reduction runs over (the loops around the reduction step that '
+                                       'do not contain a consumer of the accumulator)', floor)
+    done = set()
+    for u in units.values():
+        for f in u.funcs:
+            if f.body is None or (f.file, f.line) in done or not f.rel().startswith('amgcl/'):
+                continue
+            k = 0
+            for n in f.nodes.values():
+                if n['k'] != 'if' or n.get('t') is None or n.get('e') is None:
+                    continue
+                c = unwrap(n['c'])
+                if c is None or c['k'] != 'ref' or f.decl(c['d']).get('k') != 'local':
+                    continue
+                F = c['d']
+                offs = [m for m in walk(n['t']) if m['k'] == 'bin' and m['op'] == '=' and unwrap(m['x'])['k'] == 'ref' and unwrap(m['x'])['d'] == F
+                        and unwrap(m['y'])['k'] == 'lit' and unwrap(m['y']).get('t') == 'bool']
+                if len(offs) != 1:
+                    continue
+                off = unwrap(offs[0]['y'])['v']
+                tas = [m for m in walk(n['t']) if m['k'] == 'bin' and m['op'] == '=' and m is not offs[0] and unwrap(m['x'])['k'] == 'ref']
+                eas = [m for m in walk(n['e']) if m['k'] == 'bin' and m['op'] == '=' and unwrap(m['x'])['k'] == 'ref']
+                if len(tas) != 1 or len(eas) != 1 or unwrap(tas[0]['x'])['d'] != unwrap(eas[0]['x'])['d']:
+                    continue
+                ACC = unwrap(tas[0]['x'])['d']
+                if not any(x['k'] == 'ref' and x['d'] == ACC for x in walk(eas[0]['y'])):
+                    continue
+                k += 1
+                inside = {x['i'] for x in walk(n)}
+                loops = [a for a in f.ancestors(n) if a['k'] in ('for', 'while', 'do', 'rfor')]
+                consumers = [x for x in f.nodes.values() if x['k'] == 'ref' and x['d'] == ACC and x['i'] not in inside]
+                # plain (re)definitions of ACC are not consumers
+                defs_ = {unwrap(m['x'])['i'] for m in f.nodes.values() if m['k'] == 'bin' and m['op'] == '=' and unwrap(m['x'])['k'] == 'ref' and unwrap(m['x'])['d'] == ACC}
+                consumers = [x for x in consumers if x['i'] not in defs_]
+                over = [L for L in loops if not any(x['i'] in {y['i'] for y in walk(L)} for x in consumers)]
+                arm = 'true' if off == 'false' else 'false'
+                arms = []
+                for m in f.nodes.values():
+                    if m['k'] == 'decl':
+                        for v in m['v']:
+                            if v['d'] == F and v.get('init') is not None and unwrap(v['init'])['k'] == 'lit' and unwrap(v['init'])['v'] == arm:
+                                arms.append(m)
+                    elif m['k'] == 'bin' and m['op'] == '=' and unwrap(m['x'])['k'] == 'ref' and unwrap(m['x'])['d'] == F and unwrap(m['y'])['k'] == 'lit' \
+                            and unwrap(m['y'])['v'] == arm:
+                        arms.append(m)
+                bad = []
+                for L in over:
+                    li = {y['i'] for y in walk(L)}
+                    bad += [m for m in arms if m['i'] in li]
+                key = '%s|%s|%s' % (f.q, f.decl(F)['n'], f.decl(ACC)['n']) + ('' if k == 1 else '#%d' % k)
+                ck.ob('flagged-reduction-scope', key, f.where(n), not bad and bool(arms) and bool(consumers), '' if not bad and arms and consumers else (
+                    'flag `%s` of the reduction into `%s` is re-armed at %s inside a loop the reduction runs over (the accumulator is consumed only outside that loop)' % (
+                        f.decl(F)['n'], f.decl(ACC)['n'], f.where(bad[0])) if bad else 'no arming site / consumer of the flagged reduction found'))
+            if k:
+                done.add((f.file, f.line))
+
+
 def rule_scan(ck, units):
     """merge scans over sorted rows: `while (cur < end) { c = col[cur]; ...; if (c >= limit) break; ... }  saved = cur;`
     The element that makes the scan stop belongs to the NEXT group; the cursor that is saved for the next scan must still point at it.
@@ -228,6 +290,8 @@ def main(tier):
     cu = ir.run_units([dict(name='controls', src=os.path.join(T, 'controls.cpp'))], 'C08c')
     c17.rule_F(ck, units, cu['controls'])     # no binary search over unsorted rows (diagonal extraction etc.; shared with C17)
     c06.rule_chebyshev_bounds(ck, units, which=('sib',))
+    c06.rule_power_norm(ck, units)
+    rule_first_flag(ck, units)
     ck.assumptions += ['that the kernels compute the products, sums and transposes their definitions prescribe (values, well-formed CRS structure), the row-merge kernel, the Gershgorin / power-method bounds '
                        'themselves and the block-to-pointwise reduction are NOT decided: they quantify over values',
                        'operator* of the value types is the algebraic product']
